@@ -46,5 +46,6 @@ INPUTS = {
     "tp": (np.array([[1, 1, 0, 0, 0], [0, 0, 2, 2, 2], [0, 0, 0, 0, 3]], dtype=np.uint8), np.array([[1, 1, 1, 0, 0], [0, 0, 2, 0, 0], [0, 0, 0, 3, 3]], dtype=np.uint8)),
     "empty_pred": (np.zeros((3, 5), dtype=np.uint8), np.array([[1, 1, 1, 0, 0], [0, 0, 2, 0, 0], [0, 0, 0, 3, 3]], dtype=np.uint8)),
     "none": (np.zeros((3, 5), dtype=np.uint8), np.zeros((3, 5), dtype=np.uint8)),
+    "partial": (np.array([[1, 1, 0, 0, 0], [0, 0, 0, 0, 0], [0, 0, 0, 0, 0]], dtype=np.uint8), np.array([[1, 1, 1, 0, 0], [0, 0, 2, 2, 0], [0, 0, 0, 3, 3]], dtype=np.uint8)),
     "miss": (np.array([[1, 0, 0, 0, 0], [0, 0, 0, 0, 2], [3, 0, 0, 0, 0]], dtype=np.uint8), np.array([[0, 0, 1, 1, 0], [2, 2, 0, 0, 0], [0, 0, 0, 3, 3]], dtype=np.uint8)),
 }
